@@ -24,6 +24,9 @@ package main
 //              in one process: a genuine object first, then the object under test
 //   cli        input (mode ((path obj file-bytes)...)) impl (exit-code stdout) of the real CLI, one
 //              process: mode 0 "decipher -r <dir>", mode 1 "decipher <file> <file> ..."
+//   fresh      input ((fields)...)                 impl (nameobs...) of CurveNameFromParameters called on the
+//              sets in this order in a FRESH process (a child of the harness): deviations before any
+//              genuine set has been seen, the genuine set, the same deviations after it, the genuine set
 //   keystore   input (obj file-bytes)              impl outcome of file.Inspect, full Info: a JKS keystore
 //              whose trusted-certificate entries carry explicit-parameter keys
 //
@@ -36,10 +39,13 @@ package main
 // (neg #magnitude); an optional integer is () or ((neg #mag)).
 
 import (
+	"bufio"
 	"bytes"
 	"context"
 	stdel "crypto/elliptic"
 	"encoding/asn1"
+	"encoding/hex"
+	"encoding/json"
 	"encoding/pem"
 	"fmt"
 	"math/big"
@@ -194,6 +200,10 @@ type ecSpec struct {
 	orderC   []byte // INTEGER content
 	hasCof   bool
 	cofC     []byte
+	// raw: the complete encoding of an element ("version", "field", "prime", "a", "b", "seed", "base",
+	// "order", "cofactor") in place of its regular TLV: malformed ASN.1 forms, an absent or repeated
+	// element, arbitrary octets as FieldId.Parameters.FullBytes of a hand-built struct
+	raw map[string][]byte
 }
 
 func cp(b []byte) []byte { return append([]byte{}, b...) }
@@ -202,20 +212,46 @@ func (s ecSpec) clone() ecSpec {
 	t := s
 	t.field = append([]int{}, s.field...)
 	t.primeC, t.a, t.b, t.seed, t.base, t.orderC, t.cofC = cp(s.primeC), cp(s.a), cp(s.b), cp(s.seed), cp(s.base), cp(s.orderC), cp(s.cofC)
+	if s.raw != nil {
+		t.raw = map[string][]byte{}
+		for k, v := range s.raw {
+			t.raw[k] = cp(v)
+		}
+	}
 	return t
 }
 
-func (s ecSpec) primeTLV() []byte { return c16_tlv(s.primeTag, s.primeC) }
+func (s ecSpec) primeTLV() []byte {
+	if r, ok := s.raw["prime"]; ok {
+		return r
+	}
+	return c16_tlv(s.primeTag, s.primeC)
+}
+
+func (s *ecSpec) setRaw(elem string, enc []byte) {
+	if s.raw == nil {
+		s.raw = map[string][]byte{}
+	}
+	s.raw[elem] = enc
+}
+
+// elem: the regular encoding of one element, or its raw replacement
+func (s ecSpec) elem(name string, regular []byte) []byte {
+	if r, ok := s.raw[name]; ok {
+		return r
+	}
+	return regular
+}
 
 func (s ecSpec) der() []byte {
-	fieldID := c16_tlv(0x30, c16_tlv(0x06, c16_oidContent(s.field)), s.primeTLV())
-	curve := [][]byte{c16_tlv(0x04, s.a), c16_tlv(0x04, s.b)}
+	fieldID := c16_tlv(0x30, s.elem("field", c16_tlv(0x06, c16_oidContent(s.field))), s.primeTLV())
+	curve := [][]byte{s.elem("a", c16_tlv(0x04, s.a)), s.elem("b", c16_tlv(0x04, s.b))}
 	if s.hasSeed {
-		curve = append(curve, c16_tlv(0x03, []byte{s.seedPad}, s.seed))
+		curve = append(curve, s.elem("seed", c16_tlv(0x03, []byte{s.seedPad}, s.seed)))
 	}
-	parts := [][]byte{c16_tlv(0x02, []byte{1}), fieldID, c16_tlv(0x30, curve...), c16_tlv(0x04, s.base), c16_tlv(0x02, s.orderC)}
+	parts := [][]byte{s.elem("version", c16_tlv(0x02, []byte{1})), fieldID, c16_tlv(0x30, curve...), s.elem("base", c16_tlv(0x04, s.base)), s.elem("order", c16_tlv(0x02, s.orderC))}
 	if s.hasCof {
-		parts = append(parts, c16_tlv(0x02, s.cofC))
+		parts = append(parts, s.elem("cofactor", c16_tlv(0x02, s.cofC)))
 	}
 	return c16_tlv(0x30, parts...)
 }
@@ -493,6 +529,19 @@ type c16Gen struct {
 	ctxN     int      // round-robin over the arrangements
 	pending  []c16Dev // deviations of the current parameter family, for the CLI / keystore cases
 	others   map[string]c16Obj
+	freshSeq []asn1struct.ECParameters // direct calls of the current family, to be repeated in a fresh process
+	malCombo []int                     // quick tier: the encoding of each curve that takes the malformed ASN.1 forms
+}
+
+func c16ComboIndex(compressed, withSeed bool) int {
+	i := 0
+	if compressed {
+		i += 2
+	}
+	if withSeed {
+		i++
+	}
+	return i
 }
 
 type c16Dev struct {
@@ -634,18 +683,20 @@ func (g *c16Gen) paramCase(tag string, c c16Curve, s ecSpec, everywhere bool) {
 	if i := strings.IndexByte(tag, '-'); i > 0 && !strings.HasPrefix(tag, "corpus") {
 		tag = tag[:i]
 	}
-	der := s.der()
-	exp, ok := s.expect()
-	var want Sx = ObsErr()
-	if ok {
-		want = ObsOk(exp.Sx())
+	if len(s.raw) == 0 { // (for raw element encodings there is no prediction of our own to validate the oracle with)
+		der := s.der()
+		exp, ok := s.expect()
+		var want Sx = ObsErr()
+		if ok {
+			want = ObsOk(exp.Sx())
+		}
+		var got asn1struct.ECParameters
+		var have Sx = ObsErr()
+		if _, err := asn1.Unmarshal(der, &got); err == nil {
+			have = ObsOk(fieldsOf(got).Sx())
+		}
+		g.c.Emit("unmarshal:"+tag, SL{want, SB(der)}, have)
 	}
-	var got asn1struct.ECParameters
-	var have Sx = ObsErr()
-	if _, err := asn1.Unmarshal(der, &got); err == nil {
-		have = ObsOk(fieldsOf(got).Sx())
-	}
-	g.c.Emit("unmarshal:"+tag, SL{want, SB(der)}, have)
 	if everywhere {
 		for _, f := range c16Forms {
 			g.emitFile(tag, f[0], f[1] == 1, g.file(c, s, f[0], f[1] == 1))
@@ -909,8 +960,8 @@ func c16RunCLI(bin, cwd string, args ...string) ([]byte, int) {
 }
 
 // flushContext: the deviations collected since the last call, together with genuine objects, through
-// the real command-line tool (one process per directory: -r, and the same files as arguments in the
-// opposite order) and as the entries of one keystore
+// the real command-line tool (one process per directory: -r with a genuine file first, and the same
+// files as arguments with every deviation before the first genuine file) and as the entries of one keystore
 func (g *c16Gen) flushContext(c c16Curve, gen ecSpec) {
 	devs := g.pending
 	g.pending = nil
@@ -924,21 +975,26 @@ func (g *c16Gen) flushContext(c c16Curve, gen ecSpec) {
 			hi = len(devs)
 		}
 		var objs []c16Obj
+		var devIdx, genIdx []int
 		nextForm := func() (int, bool) {
 			f := c16Forms[g.rr%len(c16Forms)]
 			g.rr++
 			return f[0], f[1] == 1
 		}
 		k, pf := nextForm()
+		genIdx = append(genIdx, len(objs))
 		objs = append(objs, g.ecObj(c, gen, k, pf))
 		for i, d := range devs[lo:hi] {
 			k, pf = nextForm()
+			devIdx = append(devIdx, len(objs))
 			objs = append(objs, g.ecObj(c, d.s, k, pf))
 			if i == chunk/2 {
 				k, pf = nextForm()
+				genIdx = append(genIdx, len(objs))
 				objs = append(objs, g.ecObj(c, gen, k, pf))
 			}
 		}
+		nSingle := len(objs)
 		last := devs[hi-1].s
 		objs = append(objs, c16Bundle("", g.ecObj(c, gen, kParams, true), g.ecObj(c, last, kSEC1, true)))
 		objs = append(objs, c16Bundle("", g.ecObj(c, last, kSEC1, true), g.other("cert"), g.ecObj(c, gen, kParams, true), g.ecObj(c, gen, kSEC1, true)))
@@ -964,8 +1020,18 @@ func (g *c16Gen) flushContext(c c16Curve, gen ecSpec) {
 		}
 		stdout, code := c16RunCLI(g.c.Bin, g.dir, "-r", "scan")
 		g.c.Emit("cli:scan-r", SL{I(0), in}, SL{I(code), SB(stdout)})
+		// as arguments: every deviation first, in the opposite order (a fresh process that has not seen
+		// a genuine set yet), then the genuine files (they must still be named), then the bundles
 		rin, args := SL{}, []string{}
-		for i := len(objs) - 1; i >= 0; i-- {
+		var order []int
+		for i := len(devIdx) - 1; i >= 0; i-- {
+			order = append(order, devIdx[i])
+		}
+		order = append(order, genIdx...)
+		for i := nSingle; i < len(objs); i++ {
+			order = append(order, i)
+		}
+		for _, i := range order {
 			rin = append(rin, in[i])
 			args = append(args, rels[i])
 		}
@@ -1011,6 +1077,345 @@ func (g *c16Gen) flushContext(c c16Curve, gen ecSpec) {
 	g.c.Emit("keystore:jks", SL{SL{I(7), I(0), st}, SB(data)}, g.inspectFile(data, false))
 }
 
+// lightCase: a parameter set of one of the large families (boundary shifts): the direct call (after
+// the genuine set in this process), the genuine file then this one in one process (history), a
+// two-block bundle genuine parameters + this key, the CLI directory of its family, and the
+// fresh-process sequence of its family
+func (g *c16Gen) lightCase(tag string, c c16Curve, s ecSpec) {
+	p := s.direct()
+	g.matchCase(tag, p)
+	g.freshSeq = append(g.freshSeq, p)
+	if i := strings.IndexByte(tag, '-'); i > 0 {
+		tag = tag[:i]
+	}
+	gen := g.neighbor.clone()
+	n := g.ctxN
+	g.ctxN++
+	{
+		f := c16Forms[n%len(c16Forms)]
+		in, out := SL{}, SL{}
+		for _, o := range []c16Obj{g.ecObj(c, gen, f[0], f[1] == 1), g.ecObj(c, s, f[0], f[1] == 1)} {
+			in = append(in, SL{o.desc, SB(o.data)})
+			out = append(out, g.inspectFile(o.data, false))
+		}
+		form := "der"
+		if f[1] == 1 {
+			form = "pem"
+		}
+		g.c.Emit("history:"+c16KindName[f[0]]+"-"+form+"-"+tag, in, out)
+	}
+	kinds := []int{kSEC1, kSPKI, kPKCS8, kParams}
+	b := c16Bundle("", g.ecObj(c, gen, kParams, true), g.ecObj(c, s, kinds[n%4], true))
+	g.c.Emit("bundle:params+key-"+tag, SL{b.desc, SB(b.data)}, g.inspectFile(b.data, false))
+	g.pending = append(g.pending, c16Dev{tag, s})
+}
+
+// flushFresh: the direct calls of the family once more, in a FRESH process (a child of the harness
+// that has examined nothing yet): every deviation before any genuine set, the genuine set (it must
+// still be named), every deviation after it, the genuine set again
+func (g *c16Gen) flushFresh(gen ecSpec) {
+	devs := g.freshSeq
+	g.freshSeq = nil
+	if len(devs) == 0 {
+		return
+	}
+	gp := gen.direct()
+	seq := append(append(append(append([]asn1struct.ECParameters{}, devs...), gp), devs...), gp)
+	var in bytes.Buffer
+	enc := json.NewEncoder(&in)
+	for _, p := range seq {
+		if err := enc.Encode(p); err != nil {
+			fmt.Fprintln(os.Stderr, "c16: fresh: encode:", err)
+			os.Exit(1)
+		}
+	}
+	exe, err := os.Executable()
+	if err != nil {
+		fmt.Fprintln(os.Stderr, "c16: fresh:", err)
+		os.Exit(1)
+	}
+	cmd := exec.Command(exe)
+	cmd.Env = append(os.Environ(), "VERIF_C16_FRESH=1")
+	cmd.Stdin = &in
+	cmd.Stderr = os.Stderr
+	outb, err := cmd.Output()
+	lines := strings.Split(strings.TrimRight(string(outb), "\n"), "\n")
+	if err != nil || len(lines) != len(seq) {
+		fmt.Fprintf(os.Stderr, "c16: fresh child: %v, %d answers for %d sets\n", err, len(lines), len(seq))
+		os.Exit(1)
+	}
+	input, obs := SL{}, SL{}
+	for i, p := range seq {
+		input = append(input, fieldsOf(p).Sx())
+		if b, err := hex.DecodeString(lines[i]); err == nil && lines[i] != "panic" {
+			obs = append(obs, ObsOk(SB(b)))
+		} else {
+			obs = append(obs, ObsPanic())
+		}
+	}
+	g.c.Emit("fresh:direct", input, obs)
+}
+
+// the child side of flushFresh: runs before main
+func init() {
+	if os.Getenv("VERIF_C16_FRESH") == "" {
+		return
+	}
+	dec := json.NewDecoder(os.Stdin)
+	w := bufio.NewWriter(os.Stdout)
+	for {
+		var p asn1struct.ECParameters
+		if err := dec.Decode(&p); err != nil {
+			break
+		}
+		func() {
+			defer func() {
+				if r := recover(); r != nil {
+					fmt.Fprintln(w, "panic")
+				}
+			}()
+			fmt.Fprintln(w, hex.EncodeToString([]byte(wel.CurveNameFromParameters(p))))
+		}()
+	}
+	w.Flush()
+	os.Exit(0)
+}
+
+// ---- boundary shifts: the same octets, split differently between two components ----
+// Any identity of a parameter set that is built by writing components one after another without
+// their lengths (a memo key, a hash input, a joined string) is blind to these.  A component is taken
+// in each form such an identity might render it in: octet strings raw; the prime as the DER element,
+// its content, its magnitude, hex text, decimal text; order and cofactor as content, magnitude, hex, decimal.
+type c16Part struct {
+	name, form string
+	get        func(s *ecSpec) []byte
+	set        func(s *ecSpec, v []byte) // followed by a round-trip check: get(s) must give v back
+}
+
+func c16IntForms(name string, content func(s *ecSpec) *[]byte, withDER bool) []c16Part {
+	val := func(s *ecSpec) *big.Int { return intValue(*content(s)) }
+	text := func(base int) c16Part {
+		form := "hex"
+		if base == 10 {
+			form = "dec"
+		}
+		return c16Part{name, form, func(s *ecSpec) []byte { return []byte(val(s).Text(base)) }, func(s *ecSpec, v []byte) {
+			if z, ok := new(big.Int).SetString(string(v), base); ok {
+				*content(s) = intContent(z)
+			}
+		}}
+	}
+	ps := []c16Part{
+		{name, "content", func(s *ecSpec) []byte { return *content(s) }, func(s *ecSpec, v []byte) { *content(s) = v }},
+		{name, "mag", func(s *ecSpec) []byte { return val(s).Bytes() }, func(s *ecSpec, v []byte) { *content(s) = intContent(new(big.Int).SetBytes(v)) }},
+		text(16), text(10),
+	}
+	if withDER {
+		// the element as it stands in the file (FieldId.Parameters.FullBytes); any octets can be put
+		// there in a hand-built struct, in a file only what still is one element
+		ps = append([]c16Part{{name, "der", func(s *ecSpec) []byte { return s.primeTLV() }, func(s *ecSpec, v []byte) { s.setRaw("prime", v) }}}, ps...)
+	}
+	return ps
+}
+
+func c16Parts(withSeed bool) map[string][]c16Part {
+	oct := func(name string, f func(s *ecSpec) *[]byte) []c16Part {
+		return []c16Part{{name, "raw", func(s *ecSpec) []byte { return *f(s) }, func(s *ecSpec, v []byte) { *f(s) = v }}}
+	}
+	m := map[string][]c16Part{
+		"prime":    c16IntForms("prime", func(s *ecSpec) *[]byte { return &s.primeC }, true),
+		"a":        oct("a", func(s *ecSpec) *[]byte { return &s.a }),
+		"b":        oct("b", func(s *ecSpec) *[]byte { return &s.b }),
+		"base":     oct("base", func(s *ecSpec) *[]byte { return &s.base }),
+		"order":    c16IntForms("order", func(s *ecSpec) *[]byte { return &s.orderC }, false),
+		"cofactor": c16IntForms("cofactor", func(s *ecSpec) *[]byte { return &s.cofC }, false),
+	}
+	// the seed: absent = the empty string between b and the base point
+	m["seed"] = []c16Part{{"seed", "raw", func(s *ecSpec) []byte {
+		if !s.hasSeed {
+			return nil
+		}
+		return s.seed
+	}, func(s *ecSpec, v []byte) { s.hasSeed, s.seed = len(v) > 0, v }}}
+	_ = withSeed
+	return m
+}
+
+var c16PartOrder = []string{"prime", "a", "b", "seed", "base", "order", "cofactor"}
+
+// the forms of the quick tier for the pairs adjacent in the encoding
+var c16QuickForms = map[string][]string{"prime": {"der", "content"}, "order": {"hex", "content"}, "cofactor": {"content"}}
+
+func (g *c16Gen) boundary(ci int, compressed, withSeed bool) {
+	c := g.curves[ci]
+	base := c.spec(compressed, withSeed)
+	R := g.c.R
+	parts := c16Parts(withSeed)
+	natural := map[string]bool{"prime>a": true, "a>b": true, "b>seed": true, "b>base": true, "seed>base": true, "base>order": true, "order>cofactor": true}
+	inQuick := func(p c16Part) bool {
+		fs, ok := c16QuickForms[p.name]
+		if !ok {
+			return true
+		}
+		for _, f := range fs {
+			if f == p.form {
+				return true
+			}
+		}
+		return false
+	}
+	type move struct {
+		name string
+		f    func(x, y []byte) ([]byte, []byte, bool)
+	}
+	cat := func(x, y []byte) []byte { return append(cp(x), y...) }
+	fwd := func(n int) func(x, y []byte) ([]byte, []byte, bool) {
+		return func(x, y []byte) ([]byte, []byte, bool) {
+			if n < 1 || len(x) < n {
+				return nil, nil, false
+			}
+			return cp(x[:len(x)-n]), cat(x[len(x)-n:], y), true
+		}
+	}
+	back := func(n int) func(x, y []byte) ([]byte, []byte, bool) {
+		return func(x, y []byte) ([]byte, []byte, bool) {
+			if n < 1 || len(y) < n {
+				return nil, nil, false
+			}
+			return cat(x, y[:n]), cp(y[n:]), true
+		}
+	}
+	for _, xn := range c16PartOrder {
+		for _, yn := range c16PartOrder {
+			if xn == yn {
+				continue
+			}
+			for _, px := range parts[xn] {
+				for _, py := range parts[yn] {
+					x0, y0 := px.get(&base), py.get(&base)
+					kx, ky := 0, 0
+					if len(x0) > 3 {
+						kx = 3 + R.Intn(len(x0)-3)
+					}
+					if len(y0) > 3 {
+						ky = 3 + R.Intn(len(y0)-3)
+					}
+					moves := []move{{"fwd1", fwd(1)}, {"back1", back(1)}, {"fwdk", fwd(kx)}, {"backk", back(ky)},
+						{"x-into-y", func(x, y []byte) ([]byte, []byte, bool) { return nil, cat(x, y), len(x) > 0 }},
+						{"y-into-x", func(x, y []byte) ([]byte, []byte, bool) { return cat(x, y), nil, len(y) > 0 }},
+						{"resplit", func(x, y []byte) ([]byte, []byte, bool) {
+							if len(x) == len(y) {
+								return cp(y), cp(x), !bytes.Equal(x, y) // equal lengths: the two exchanged
+							}
+							xy := cat(x, y)
+							return xy[:len(y)], xy[len(y):], true // the lengths exchanged, the octets in place
+						}}}
+					moves = append(moves, move{"fwd2", fwd(2)}, move{"back2", back(2)})
+					quickPair := natural[xn+">"+yn] && inQuick(px) && inQuick(py)
+					for _, mv := range moves {
+						// quick: every move on the pairs adjacent in the encoding, in the usual forms; a seeded
+						// sample (1 in 40) of all the other orders and forms
+						if !g.c.Thorough() && !quickPair && R.Intn(40) != 0 {
+							continue
+						}
+						x1, y1, ok := mv.f(x0, y0)
+						if !ok {
+							continue
+						}
+						s := base.clone()
+						px.set(&s, x1)
+						py.set(&s, y1)
+						// only sets whose components render back to the shifted octets (a hex digit cannot
+						// become a leading zero, octets moved into an integer must be an integer in that form)
+						if !bytes.Equal(px.get(&s), x1) || !bytes.Equal(py.get(&s), y1) {
+							continue
+						}
+						g.lightCase(fmt.Sprintf("boundary-%s.%s>%s.%s-%s", px.name, px.form, py.name, py.form, mv.name), c, s)
+					}
+				}
+			}
+		}
+	}
+	// the base point's format octet split off: dropped, or handed to either neighbour
+	for _, t := range []string{"dropped", "to-b", "to-seed", "to-order-hex"} {
+		s := base.clone()
+		pre := s.base[0]
+		s.base = s.base[1:]
+		switch t {
+		case "to-b":
+			s.b = append(s.b, pre)
+		case "to-seed":
+			s.hasSeed, s.seed = true, append(s.seed, pre)
+		case "to-order-hex":
+			z, _ := new(big.Int).SetString(fmt.Sprintf("%02x", pre)+intValue(s.orderC).Text(16), 16)
+			s.orderC = intContent(z)
+		}
+		g.lightCase("boundary-prefix-"+t, c, s)
+	}
+}
+
+// ---- every element in every malformed ASN.1 form, all the others genuine, through every carrier ----
+func (g *c16Gen) malformedElements(ci int, compressed, withSeed bool) {
+	c := g.curves[ci]
+	base := c.spec(compressed, withSeed)
+	regular := map[string][]byte{
+		"version": c16_tlv(0x02, []byte{1}), "field": c16_tlv(0x06, c16_oidContent(base.field)), "prime": base.primeTLV(),
+		"a": c16_tlv(0x04, base.a), "b": c16_tlv(0x04, base.b), "base": c16_tlv(0x04, base.base),
+		"order": c16_tlv(0x02, base.orderC), "cofactor": c16_tlv(0x02, base.cofC),
+	}
+	elems := []string{"version", "field", "prime", "a", "b", "base", "order", "cofactor"}
+	if withSeed {
+		regular["seed"] = c16_tlv(0x03, []byte{0}, base.seed)
+		elems = append(elems, "seed")
+	}
+	for _, e := range elems {
+		reg := regular[e]
+		tag := reg[0]
+		hdr := len(reg) - len(c16_tlvContent(reg))
+		content := reg[hdr:]
+		retag := func(t byte) []byte { return append([]byte{t}, reg[1:]...) }
+		forms := []struct {
+			name string
+			enc  []byte
+		}{
+			{"len0", []byte{tag, 0}},
+			{"absent", []byte{}},
+			{"twice", append(cp(reg), reg...)},
+			{"null", []byte{5, 0}},
+			{"as-integer", retag(0x02)},
+			{"as-octets", retag(0x04)},
+			{"as-bits", retag(0x03)},
+			{"as-utf8", retag(0x0c)},
+			{"as-sequence", retag(0x30)},
+			{"constructed", retag(tag | 0x20)},
+			{"context-tag", retag(0x80)},
+			{"nonminimal", c16_tlv(tag, []byte{0}, content)}, // a leading 00: a non-minimal INTEGER / a longer string
+			{"nonminimal-ff", c16_tlv(tag, []byte{0xff}, content)},
+			{"length-long-form", append(append([]byte{tag, 0x82, byte(len(content) >> 8), byte(len(content))}, content...))},
+			{"length-indefinite", append(append([]byte{tag, 0x80}, content...), 0, 0)},
+			{"length-too-long", append(append([]byte{tag}, c16_derLen(len(content)+1)...), content...)}, // runs into the next element
+			{"length-too-short", append(append([]byte{tag}, c16_derLen(len(content)-1)...), content...)},
+			{"cut-in-half", reg[:hdr+len(content)/2]},
+			{"header-only", reg[:hdr]},
+		}
+		for _, f := range forms {
+			s := base.clone()
+			s.setRaw(e, f.enc)
+			g.paramCase("asn1-"+e+"-"+f.name, c, s, true)
+		}
+	}
+}
+
+func c16_tlvContent(tlv []byte) []byte {
+	if len(tlv) < 2 {
+		return nil
+	}
+	if tlv[1] < 0x80 {
+		return tlv[2:]
+	}
+	return tlv[2+int(tlv[1]&0x7f):]
+}
+
 type c16Comp struct {
 	name string
 	get  func(*ecSpec) *[]byte
@@ -1038,6 +1443,13 @@ func (g *c16Gen) mutants(ci int, compressed, withSeed bool) {
 	}
 	g.neighbor = &base
 	defer func() {
+		// the same octets split differently between two components; every element in every malformed
+		// ASN.1 form (quick: for one encoding of the curve, seeded; thorough: for all four)
+		g.boundary(ci, compressed, withSeed)
+		if g.c.Thorough() || g.malCombo[ci] == c16ComboIndex(compressed, withSeed) {
+			g.malformedElements(ci, compressed, withSeed)
+		}
+		g.flushFresh(base)
 		g.flushContext(c, base)
 		g.neighbor = nil
 	}()
@@ -1364,6 +1776,9 @@ func genC16(c *Ctx) {
 		g.flushContext(g.curves[ci], g.curves[ci].spec(false, true))
 	}
 	// --- structured stream ---
+	for range g.curves {
+		g.malCombo = append(g.malCombo, c.R.Intn(4))
+	}
 	for ci := range g.curves {
 		for _, compressed := range []bool{false, true} {
 			for _, withSeed := range []bool{true, false} {
